@@ -429,7 +429,7 @@ class Sim:
                 if st["q"].endswith(".py") and self._clash(t, st["q"]):
                     return "skip"
                 if not st["q"].endswith(".py") or not st["p"].endswith(".py"):
-                    self.taint["file_moved_to_ignored_name"] = True  # (index keeps a module renamed to a non-module name: known)
+                    pass
                 W.get_resource(st["p"]).move(st["q"])
                 out.stats["probe_rename_file_extension_change"] += 1
             elif a == "c_remove":
